@@ -308,7 +308,7 @@ def find_model(eng, ob, max_len=7):
       if isinstance(v, V) and v.ty.is_reflike and v.ty.k not in ('str', 'any', 'fn') and v.t is not None:
         small.append(z3.And(v.t >= 0, v.t <= B))
     s2 = z3.Solver()
-    s2.set('timeout', 60000 if canonical else 180000)
+    s2.set('timeout', 30000 if canonical else 60000)
     for h in ob.hyps:
       s2.add(bounded_instances(h, B, True))
     s2.add(bounded_instances(ob.goal, B, False))
